@@ -833,4 +833,176 @@ theorem loop_honest (hI : Ideal cfg.verify n0.st.chained chain)
 
 end conv
 
+theorem good_refl {chain : Nat → Beacon} {n : Node} (hc : ChainInv n.st) (ho : OnChain chain n) : Good chain n n :=
+  ⟨inOrder_refl n hc, ho⟩
+
+/-- **c10_converges.** Configurations: the participant stack, or tryNode with the round check, or the follow stack on a
+chained scheme. The node holds a prefix of the true chain below the target `upTo`. The peers are tried in the order
+`pre ++ hp :: post` — any list, hence every permutation `rand.Perm` can yield — where `hp` is an honest peer, not the
+node itself, whose head is at or beyond the target; the peers tried before it behave arbitrarily (bad signatures, wrong
+/ skipped / repeated rounds, foreign ids, dial errors, early closes …) except that they do not stall; the peers after
+it are arbitrary. Then `Sync` reports success, the head is exactly the target, every write was an append and the store
+is still a prefix of the true chain. -/
+theorem c10_converges (cfg : Cfg) (chain : Nat → Beacon) (self : String) (upTo H : Nat) (n : Node)
+    (pre post : List Peer) (hp : Peer)
+    (hI : Ideal cfg.verify n.st.chained chain)
+    (hgood : cfg.mode = .participant ∨ cfg.roundCheck = true ∨ n.st.chained = true)
+    (hle : ∀ s, ChainInv s → cfg.lastErr s.base = false)
+    (hc : ChainInv n.st) (ho : OnChain chain n) (hlt : n.head < upTo) (hH : upTo ≤ H)
+    (hhon : Honest chain H hp) (hself : hp.addr ≠ self) (hpre : ∀ p ∈ pre, NoStall p) :
+    let r := sync cfg self 0 upTo false n (pre ++ hp :: post)
+    r.2.1 = .ok ∧ r.1.head = upTo ∧ InOrder n r.1 ∧ OnChain chain r.1 := by
+  suffices hsuff : ∀ (pre : List Peer) (m : Node), (∀ p ∈ pre, NoStall p) → Good chain n m → m.head < upTo →
+      (sync cfg self 0 upTo false m (pre ++ hp :: post)).2.1 = .ok ∧
+      (sync cfg self 0 upTo false m (pre ++ hp :: post)).1.head = upTo ∧
+      Good chain n (sync cfg self 0 upTo false m (pre ++ hp :: post)).1 by
+    obtain ⟨a, b, c⟩ := hsuff pre n hpre (good_refl hc ho) hlt
+    exact ⟨a, b, c.1, c.2⟩
+  intro pre
+  induction pre with
+  | nil =>
+    intro m _ hg hm
+    simp only [List.nil_append]
+    unfold sync
+    rw [if_neg hself]
+    simp only [Bool.false_eq_true, if_false]
+    -- the honest peer is tried on a node that holds a prefix of the chain below the target
+    obtain ⟨rest, hserve⟩ := hhon (m.head + 1) (by omega)
+    have hm1 : Good chain n { m with calls := (hp.addr, m.head + 1) :: m.calls } := hg
+    obtain ⟨g, hreach, hhead⟩ := loop_honest (upTo := upTo) hI hgood (m.head + 1) H hH rest (upTo - m.head - 1)
+      { m with calls := (hp.addr, m.head + 1) :: m.calls } hm1 (by show m.head + _ + 1 = upTo; omega)
+    have ht : tryNode cfg 0 upTo m hp =
+        loop cfg false (m.head + 1) upTo m.head { m with calls := (hp.addr, m.head + 1) :: m.calls }
+          (honestItems chain (m.head + 1) H ++ rest) := by
+      unfold tryNode
+      simp [hle m.st hg.1.1, hserve]
+    rw [ht]
+    have hh : ({ m with calls := (hp.addr, m.head + 1) :: m.calls } : Node).head = m.head := rfl
+    rw [hh] at hreach hhead g
+    rw [hreach]
+    exact ⟨rfl, hhead, g⟩
+  | cons p pre ih =>
+    intro m hns hg hm
+    simp only [List.cons_append]
+    unfold sync
+    split
+    · exact ih m (fun q hq => hns q (List.mem_cons_of_mem _ hq)) hg hm
+    · simp only [Bool.false_eq_true, if_false]
+      obtain ⟨g, r1, r2, r3⟩ := tryNode_any (upTo := upTo) hI hgood m p hg hm
+      have hnc := r3 (hns p List.mem_cons_self)
+      split
+      · next h => exact ⟨rfl, r1 h, g⟩
+      · next h => exact ih _ (fun q hq => hns q (List.mem_cons_of_mem _ hq)) g (r2 (by rw [h]; simp))
+      · next h => exact absurd h hnc
+
+/-- `Run` starts a sync for a request only while the head is below the target; each element of `attempts` is one such
+sync (its peers in the order tried, behaving as they do at that time) -/
+def restarts (cfg : Cfg) (self : String) (upTo : Nat) : Node → List (List Peer) → Node
+  | n, [] => n
+  | n, ps :: rest => if upTo ≤ n.head then n else restarts cfg self upTo (sync cfg self 0 upTo false n ps).1 rest
+
+/-- **c10_converges_restarts.** Stalling peers are overcome only by `Run` cancelling the stuck sync and starting a new
+one with a fresh random order. For *any* sequence of earlier attempts (any peers, any behaviour including stalls, hence
+cancelled attempts) followed by one attempt in which an honest peer ahead of the target is reached before any stalling
+peer, the node ends with its head at the target, still a prefix of the true chain. (That such an attempt eventually
+occurs is a fairness assumption about `rand.Perm`, not a theorem.) -/
+theorem c10_converges_restarts (cfg : Cfg) (chain : Nat → Beacon) (self : String) (upTo H : Nat) (n : Node)
+    (earlier : List (List Peer)) (pre post : List Peer) (hp : Peer)
+    (hI : Ideal cfg.verify n.st.chained chain)
+    (hgood : cfg.mode = .participant ∨ cfg.roundCheck = true ∨ n.st.chained = true)
+    (hle : ∀ s, ChainInv s → cfg.lastErr s.base = false)
+    (hc : ChainInv n.st) (ho : OnChain chain n) (hlt : n.head < upTo) (hH : upTo ≤ H)
+    (hhon : Honest chain H hp) (hself : hp.addr ≠ self) (hpre : ∀ p ∈ pre, NoStall p) :
+    let r := restarts cfg self upTo n (earlier ++ [pre ++ hp :: post])
+    r.head = upTo ∧ InOrder n r ∧ OnChain chain r := by
+  suffices hsuff : ∀ (earlier : List (List Peer)) (m : Node), Good chain n m → m.head ≤ upTo →
+      (restarts cfg self upTo m (earlier ++ [pre ++ hp :: post])).head = upTo ∧
+      Good chain n (restarts cfg self upTo m (earlier ++ [pre ++ hp :: post])) by
+    obtain ⟨a, b⟩ := hsuff earlier n (good_refl hc ho) (by omega)
+    exact ⟨a, b.1, b.2⟩
+  intro earlier
+  induction earlier with
+  | nil =>
+    intro m hg hm
+    simp only [List.nil_append, restarts]
+    split
+    · exact ⟨by omega, hg⟩
+    · next hlt' =>
+      have hIm : Ideal cfg.verify m.st.chained chain := by rw [hg.1.2.1]; exact hI
+      have hgm : cfg.mode = .participant ∨ cfg.roundCheck = true ∨ m.st.chained = true := by rw [hg.1.2.1]; exact hgood
+      -- re-run c10_converges' induction from m, relative to n
+      have := c10_converges cfg chain self upTo H m pre post hp hIm hgm hle hg.1.1 hg.2 (by omega) hH hhon hself hpre
+      obtain ⟨_, hh, hio, hoc⟩ := this
+      refine ⟨hh, ?_, hoc⟩
+      -- compose InOrder n m with InOrder m r
+      obtain ⟨_, hch0, ws0, hw0, hr0, hh0, hl0⟩ := hg.1
+      obtain ⟨hci, hch1, ws1, hw1, hr1, hh1, hl1⟩ := hio
+      refine ⟨hci, by rw [hch1, hch0], ws1 ++ ws0, by rw [hw1, hw0, List.append_assoc], ?_, by rw [hh1, hh0, List.length_append]; omega, ?_⟩
+      · rw [List.reverse_append, List.map_append, hr0, hr1, hh0, List.length_append]
+        rw [show ws1.length + ws0.length = ws0.length + ws1.length by omega, ← List.range'_append_1,
+          show n.head + ws0.length + 1 = n.head + 1 + ws0.length by omega]
+      · intro k hk
+        rw [hl1 k (by omega), hl0 k hk]
+  | cons ps earlier ih =>
+    intro m hg hm
+    simp only [List.cons_append, restarts]
+    split
+    · next hge =>
+      exact ⟨by omega, hg⟩
+    · next hlt' =>
+      obtain ⟨g, r1, r2⟩ := sync_any (upTo := upTo) hI hgood self ps false m hg (by omega)
+      refine ih _ g ?_
+      by_cases hok : (sync cfg self 0 upTo false m ps).2.1 = .ok
+      · exact Nat.le_of_eq (r1 hok)
+      · exact Nat.le_of_lt (r2 hok)
+
+/-- a well-formed store of verifying beacons that starts at the genesis beacon is a prefix of the true chain: the
+precondition `OnChain` of the convergence theorems is what C02 (`ChainInv`) and `c10_bad_peer_harmless` (`Valid`)
+maintain -/
+theorem onChain_of_valid {verify : Beacon → Bool} {chain : Nat → Beacon} {n : Node}
+    (hI : Ideal verify n.st.chained chain) (hc : ChainInv n.st) (hv : Valid verify n.st)
+    (hg : lookup 0 n.st.base = some (chain 0)) (hg' : n.st.chained = false → (chain 0).prev = []) : OnChain chain n := by
+  intro r hr
+  cases r with
+  | zero =>
+    rw [hg]
+    unfold storedForm
+    cases hch : n.st.chained with
+    | true => rfl
+    | false =>
+      simp only [Bool.false_eq_true, if_false]
+      have := hg' hch
+      cases hcb : chain 0
+      rw [hcb] at this
+      simp_all
+  | succ r =>
+    obtain ⟨b, hb⟩ := Option.isSome_iff_exists.1 ((hc.dense (r + 1)).2 hr)
+    have hver := hv (r + 1) b (by omega) hb
+    have hround : b.round = r + 1 := by
+      have hm : (r + 1, b) ∈ n.st.base := by
+        clear hver
+        generalize n.st.base = l at hb
+        induction l with
+        | nil => simp [lookup] at hb
+        | cons a t ih =>
+          obtain ⟨k', v'⟩ := a
+          unfold lookup at hb
+          split at hb
+          · cases hb; subst_vars; exact List.mem_cons_self
+          · exact List.mem_cons_of_mem _ (ih hb)
+      exact hc.sorted.2 _ hm
+    have hsf := storedForm_ideal hI hver
+    rw [hround] at hsf
+    rw [hb, ← hsf]
+    congr 1
+    unfold storedForm
+    cases hch : n.st.chained with
+    | true => rfl
+    | false =>
+      have := hc.linked r b hb
+      rw [hch] at this
+      simp only [Bool.false_eq_true, if_false] at this ⊢
+      cases b
+      simp_all
+
 end Drand.Beacon.Sync
